@@ -3,9 +3,11 @@ package store
 import (
 	"bytes"
 	"context"
+	"encoding/hex"
 	"encoding/json"
 	"fmt"
 	"sort"
+	"strings"
 
 	"github.com/oasisprotocol/oasis-core/go/common/crypto/hash"
 	"github.com/oasisprotocol/oasis-core/go/storage/mkvs"
@@ -46,6 +48,9 @@ type PFOp struct {
 	N        int    `json:"n,omitempty"`
 	Prefetch uint16 `json:"prefetch,omitempty"`
 	Muts     []Mut  `json:"muts,omitempty"`
+	// Prefixes (hex) of a pget operation, in request order (nested prefixes in either order,
+	// duplicates, prefixes without keys).
+	Prefixes []string `json:"prefixes,omitempty"`
 }
 
 var mutKinds = []string{"flipbit", "drop", "dup", "swap", "tohash", "nil", "truncate", "extend", "root", "version", "otherkey", "othertree", "replay", "empty", "cutentry", "growentry", "leafvalue", "dropleaf", "fullenc", "fullenc", "fullenc", "inlineleaf", "inlineleaf"}
@@ -130,6 +135,28 @@ func (ProofEngine) Generate(r *core.Rand, tier core.Tier) *core.Scenario {
 			op.K = "newclient"
 		}
 		sc.Ops = append(sc.Ops, core.MustJSON(op))
+	}
+	// Completeness of honest prefix-fetch and iteration proofs (own PRNG, operations appended at
+	// drawn positions: the other operations of the scenario are unchanged).
+	xr := core.NewRand(core.Hash64([]byte(strings.Join(k.Keys, ","))) ^ 0x9e7)
+	for i, n := 0, xr.Range(0, 1+nops/5); i < n; i++ {
+		op := PFOp{K: "iget", Key: xr.Intn(nk), Derive: xr.Pick([]int{6, 1, 1, 1, 1}), Ver: uint16(xr.Intn(2)), Prefetch: uint16(xr.Pick([]int{3, 1, 1}) * xr.Range(0, 8))}
+		if xr.Bool() {
+			op.K = "pget"
+			op.Prefetch = uint16(xr.Pick([]int{1, 3, 2}) * xr.Range(0, 12))
+			base := keys[xr.Intn(nk)]
+			for j, m := 0, xr.Range(1, 4); j < m; j++ {
+				src := base
+				if xr.Chance(1, 3) {
+					src = keys[xr.Intn(nk)]
+				}
+				op.Prefixes = append(op.Prefixes, hex.EncodeToString(src[:xr.Range(0, len(src))]))
+			}
+		}
+		pos := xr.Intn(len(sc.Ops) + 1)
+		sc.Ops = append(sc.Ops, nil)
+		copy(sc.Ops[pos+1:], sc.Ops[pos:])
+		sc.Ops[pos] = core.MustJSON(op)
 	}
 	return sc
 }
@@ -445,6 +472,47 @@ func proofLookup(ptr *node.Pointer, key node.Key) (val []byte, present, determin
 			switch {
 			case key.BitLength() < bitLength:
 				return nil, false, true
+			case key.BitLength() == bitLength:
+				ptr = n.LeafNode
+			case key.GetBit(bitLength):
+				ptr = n.Right
+			default:
+				ptr = n.Left
+			}
+			depth = bitLength
+		case *node.LeafNode:
+			if n.Key.Equal(key) {
+				return n.Value, true, true
+			}
+			return nil, false, true
+		}
+	}
+	return nil, false, false
+}
+
+// proofLookupLabels is proofLookup for range proofs: an iterator prunes by comparing the
+// compressed labels, so a key whose bits disagree with the label of an internal node on its path
+// is determined to be absent there (every key below that node shares the label).
+func proofLookupLabels(ptr *node.Pointer, key node.Key) (val []byte, present, determined bool) {
+	var depth node.Depth
+	for steps := 0; steps < 1<<16; steps++ {
+		if ptr == nil {
+			return nil, false, true
+		}
+		switch n := ptr.Node.(type) {
+		case nil:
+			return nil, false, false
+		case *node.InternalNode:
+			bitLength := depth + n.LabelBitLength
+			if key.BitLength() < bitLength {
+				return nil, false, true
+			}
+			for i := node.Depth(0); i < n.LabelBitLength; i++ {
+				if key.GetBit(depth+i) != n.Label.GetBit(i) {
+					return nil, false, true
+				}
+			}
+			switch {
 			case key.BitLength() == bitLength:
 				ptr = n.LeafNode
 			case key.GetBit(bitLength):
@@ -849,6 +917,11 @@ func (ProofEngine) Execute(sc *core.Scenario, st *core.Stats) (*core.Violation, 
 				} else if byz.mutated == 0 {
 					honestOK++
 				}
+			case "pget", "iget":
+				v = honestRangeProof(ctx, st, step, &op, server, &pv, root, key, keys, contents, sorted)
+				if v == nil {
+					honestOK++
+				}
 			case "cprefix":
 				byz.begin(op.Muts)
 				var prefixes [][]byte
@@ -905,4 +978,153 @@ func (ProofEngine) Execute(sc *core.Scenario, st *core.Stats) (*core.Violation, 
 	st.Distinct("trees", contents.Digest())
 	st.Sample(2, map[string]interface{}{"pairs": len(contents), "keys": len(keys), "ops": firstN(sc.Ops, 6)})
 	return v, honestOK >= 1 && effective >= 1
+}
+
+// honestRangeProof checks the completeness of an honest prefix-fetch (pget) or iteration (iget)
+// proof: it verifies against the root and by itself determines the value of every key the
+// request covers and the absence of every other key inside the covered ranges.
+func honestRangeProof(ctx context.Context, st *core.Stats, step int, op *PFOp, server mkvs.Tree, pv *syncer.ProofVerifier, root node.Root, key []byte, keys [][]byte, contents Model, sorted []string) *core.Violation {
+	tid := syncer.TreeID{Root: root, Position: root.Hash}
+	var rsp *syncer.ProofResponse
+	var err error
+	var what string
+	// must lists the keys whose answer the proof has to determine; mustAbsentIn lists closed key
+	// ranges [lo, hi] (hi == "" = unbounded) in which every key of the universe has to be determined.
+	var must []string
+	type span struct {
+		lo, hi  string
+		prefix  bool
+		bounded bool // hi is an upper bound (inclusive)
+	}
+	var spans []span
+	switch op.K {
+	case "pget":
+		var prefixes [][]byte
+		for _, h := range op.Prefixes {
+			b, _ := hex.DecodeString(h)
+			prefixes = append(prefixes, b)
+		}
+		what = fmt.Sprintf("SyncGetPrefixes(%v, limit %d, v%d)", op.Prefixes, op.Prefetch, op.Ver)
+		rsp, err = server.SyncGetPrefixes(ctx, &syncer.GetPrefixesRequest{Tree: tid, Prefixes: prefixes, Limit: op.Prefetch, ProofVersion: op.Ver})
+		total := 0
+	prefixLoop:
+		for _, p := range prefixes {
+			for _, k := range sorted {
+				if !bytes.HasPrefix([]byte(k), p) {
+					continue
+				}
+				if total >= int(op.Prefetch) {
+					break prefixLoop
+				}
+				must = append(must, k)
+				total++
+			}
+			if total >= int(op.Prefetch) {
+				// (the item at which the limit is noticed may or may not exist: stop expecting)
+				break
+			}
+			spans = append(spans, span{lo: string(p), prefix: true})
+		}
+	default:
+		what = fmt.Sprintf("SyncIterate(%x, prefetch %d, v%d)", key, op.Prefetch, op.Ver)
+		rsp, err = server.SyncIterate(ctx, &syncer.IterateRequest{Tree: tid, Key: key, Prefetch: op.Prefetch, ProofVersion: op.Ver})
+		n := max(int(op.Prefetch), 1)
+		last := ""
+		complete := false
+		for _, k := range sorted {
+			if k < string(key) {
+				continue
+			}
+			if len(must) >= n {
+				complete = true
+				break
+			}
+			must = append(must, k)
+			last = k
+		}
+		if complete || len(must) > 0 {
+			spans = append(spans, span{lo: string(key), hi: last, bounded: true})
+		}
+		if !complete && len(must) < n {
+			// The iteration ran off the end: everything from the key on is determined.
+			spans = []span{{lo: string(key)}}
+		}
+	}
+	st.Event("%s entries=%d err=%v", what, func() int {
+		if rsp == nil {
+			return -1
+		}
+		return len(rsp.Proof.Entries)
+	}(), err != nil)
+	if err != nil {
+		return pfViol("honest-proof-error", fmt.Sprintf("step %d: %s on a clean tree failed: %v", step, what, err))
+	}
+	if root.Hash.IsEmpty() {
+		return nil
+	}
+	wl, err := pv.VerifyProofToWriteLog(ctx, root.Hash, &rsp.Proof)
+	if err != nil {
+		return pfViol("honest-proof-rejected", fmt.Sprintf("step %d: the honest proof of %s does not verify against its own root: %v", step, what, err))
+	}
+	rootPtr, err := pv.VerifyProof(ctx, root.Hash, &rsp.Proof)
+	if err != nil {
+		return pfViol("honest-proof-rejected", fmt.Sprintf("step %d: VerifyProof rejects what VerifyProofToWriteLog accepted for %s: %v", step, what, err))
+	}
+	inLog := map[string][]byte{}
+	for _, e := range wl {
+		tv, ok := contents[string(e.Key)]
+		if !ok || !bytes.Equal(tv, e.Value) {
+			return pfViol("honest-writelog-wrong", fmt.Sprintf("step %d: the honest proof of %s yields pair (%x,%x) which is not in the tree", step, what, e.Key, e.Value))
+		}
+		inLog[string(e.Key)] = e.Value
+	}
+	check := func(k string) *core.Violation {
+		want, present := contents[k]
+		pval, ppresent, determined := proofLookupLabels(rootPtr, node.Key(k))
+		switch {
+		case !determined:
+			return pfViol("honest-proof-indeterminate", fmt.Sprintf("step %d: the honest proof of %s verifies but does not determine the answer for key %x (present=%v), which the request covers: the lookup path ends in an unexpanded hash", step, what, k, present))
+		case ppresent != present || (present && !bytes.Equal(pval, want)):
+			return pfViol("honest-proof-wrong-answer", fmt.Sprintf("step %d: the honest proof of %s determines (%x, present=%v) for key %x but the tree holds (%x, present=%v)", step, what, pval, ppresent, k, want, present))
+		}
+		if _, ok := inLog[k]; present && !ok {
+			return pfViol("honest-proof-incomplete", fmt.Sprintf("step %d: the write log of the honest proof of %s lacks the covered key %x", step, what, k))
+		}
+		return nil
+	}
+	for _, k := range must {
+		if v := check(k); v != nil {
+			return v
+		}
+	}
+	st.Add("probe.range_proof_keys_determined", int64(len(must)))
+	// Absent keys of the universe inside the covered ranges.
+	for _, u := range keys {
+		for d := 0; d < 5; d++ {
+			k := string(deriveKey(u, d))
+			if _, present := contents[k]; present {
+				continue
+			}
+			for _, sp := range spans {
+				in := k >= sp.lo && (!sp.bounded || k <= sp.hi)
+				if sp.prefix {
+					in = strings.HasPrefix(k, sp.lo)
+				}
+				if !in {
+					continue
+				}
+				if v := check(k); v != nil {
+					return v
+				}
+				st.Inc("probe.range_proof_absent_keys_determined")
+				break
+			}
+		}
+	}
+	if op.K == "pget" {
+		st.Inc("probe.prefix_proof_complete")
+	} else {
+		st.Inc("probe.iterate_proof_complete")
+	}
+	return nil
 }
